@@ -34,13 +34,16 @@ pub fn check(tier: Tier) -> Check {
     for fl in [5u64, 6, 7] {
         parts.push(Part::new("C11/near-wrap", json!({"depth": tier.pick(4, 5), "flavour": fl, "refusals": true}), 0, tier.pick(30, 600)));
     }
+    // a future created long before its first poll: by then the counters have gone once round (rewound
+    // by the hook here) and another operation holds the values they had at creation time
+    parts.push(Part::new("C11/parked", json!({}), 0, 60));
     parts.push(Part::new("C11/hook-validate", json!({}), 0, 120));
     parts.push(Part::new("C11/loom", json!({"thorough": tier == Tier::Thorough}), 0, 600));
     Check {
         also_rel: false,
         property: "C11",
         level: "model_checking",
-        rule: "(a) 12 deterministic runs of 70 000 identifier-consuming operations through the real handle/context (QoS 1 only, QoS 2 only, subscribe only, round robin) with 0, 1 or 3 acknowledgements outstanding; (b) all sequences of operation starts and acknowledgements up to the stated depth from counters preset (hook) to 65533/65534/65535 and subscription identifiers preset to 1/127/268435454; (b') the same with Receive Maximum 1 or Maximum Packet Size 12 in force, so that locally refused requests sit between the accepted ones, the context task held back and released (deviations); (b'') the same with the operations issued on one long-lived handle (one after the other) and on clones taken from it in between; (c) differential validation of the hook against an honest run to the same point; (d) loom: all interleavings (unbounded; 3x2 with preemption bound 3 in thorough) of 2 threads x 2 and 3 threads x 1 first polls of publish QoS 1/2, subscribe, unsubscribe on real handle clones at the two library atomics, started at counters 1 and next to the wrap, drained through the real Context and decoded; oracle: every identifier on the wire is non-zero (strict decoder), differs from every outstanding one, subscription identifiers are never reused, no panic; non-trivial = the packet identifier counter wrapped".into(),
+        rule: "(a) 12 deterministic runs of 70 000 identifier-consuming operations through the real handle/context (QoS 1 only, QoS 2 only, subscribe only, round robin) with 0, 1 or 3 acknowledgements outstanding; (b) all sequences of operation starts and acknowledgements up to the stated depth from counters preset (hook) to 65533/65534/65535 and subscription identifiers preset to 1/127/268435454; (b') the same with Receive Maximum 1 or Maximum Packet Size 12 in force, so that locally refused requests sit between the accepted ones, the context task held back and released (deviations); (b'') the same with the operations issued on one long-lived handle (one after the other) and on clones taken from it in between; (b''') an operation whose future is created, left unpolled while the counters go once round (rewound by the hook) and another operation takes the same values, and polled then; (c) differential validation of the hook against an honest run to the same point; (d) loom: all interleavings (unbounded; 3x2 with preemption bound 3 in thorough) of 2 threads x 2 and 3 threads x 1 first polls of publish QoS 1/2, subscribe, unsubscribe on real handle clones at the two library atomics, started at counters 1 and next to the wrap, drained through the real Context and decoded; oracle: every identifier on the wire is non-zero (strict decoder), differs from every outstanding one, subscription identifiers are never reused, no panic; non-trivial = the packet identifier counter wrapped".into(),
         assumptions: vec![
             "fewer than 65535 identifiers are allocated while any operation is outstanding (premise of the property)".into(),
             "loom explores interleavings at the two library atomics only; futures-channel (std atomics) is in the trusted base".into(),
@@ -181,7 +184,41 @@ fn hook_validate(name: String, params: Value) -> Scenario {
     })
 }
 
+fn parked(name: String, params: Value) -> Scenario {
+    Box::new(move |chz, ex| {
+        let specs = [
+            OpSpec::Publish(PublishSpec::simple(1, "t/a", b"one")),
+            OpSpec::Publish(PublishSpec::simple(2, "t/b", b"two")),
+            OpSpec::Subscribe(SubscribeSpec::simple("s/a")),
+            OpSpec::Unsubscribe(UnsubscribeSpec::simple("s/a")),
+        ];
+        let first = specs[chz.choose(4)].clone();
+        let second = specs[chz.choose(4)].clone();
+        let (pid0, sub0) = [(100u16, 5u32), (65535, 127), (255, 268_435_455)][chz.choose(3)];
+        let mut sys = Sys::new("C11", &name, chz);
+        sys.params = params.clone();
+        sys.m.check_client_acks = false;
+        sys.bring_up(vec![]);
+        sys.w.handle().verif_set_ids(pid0, sub0);
+        sys.events.push(format!("PresetCounters(packet_id={}, sub_id={})", pid0, sub0));
+        // created now, polled later
+        sys.apply(Ev::StartHeld(first));
+        // "65535 operations later": the counters stand where they stood
+        sys.w.handle().verif_set_ids(pid0, sub0);
+        sys.events.push(format!("PresetCounters(packet_id={}, sub_id={})  [one lap later]", pid0, sub0));
+        sys.apply(Ev::Start(second));
+        sys.apply(Ev::Release(crate::world::Tid::Op(0)));
+        sys.apply(Ev::Start(OpSpec::Subscribe(SubscribeSpec::simple("s/b"))));
+        sys.finish();
+        sys.m.hits.push("pid-wrapped");
+        sys.report(ex, &["pid-wrapped"]);
+    })
+}
+
 pub fn scenario(name: &str, params: &Value) -> Scenario {
+    if name == "C11/parked" {
+        return parked(name.to_string(), params.clone());
+    }
     match name {
         "C11/loom" => return loom_part(name.to_string(), params.clone()),
         "C11/long" => return long(name.to_string(), params.clone()),
